@@ -40,7 +40,7 @@ fn idx(i: u16, n: usize) -> usize {
     (i as usize * n) >> 16
 }
 
-fn replace_first(t: &Tm, from: &Tm, to: &Tm) -> Option<Tm> {
+pub fn replace_first(t: &Tm, from: &Tm, to: &Tm) -> Option<Tm> {
     if t == from {
         return Some(to.clone());
     }
